@@ -32,11 +32,12 @@ def run(ctx):
     for sig, how in (('(char *)', 'copy'), ('std::ostream &', '<<')):
         e = prog.fn1(MB + 'encode', sig=sig)
         ctx.saw(e)
-        fr = [n for n in e.all_nodes() if n.k == 'CXXForRangeStmt' and q.refers_to_member(n.child('range'), MB + '_pos')]
+        trav = q.ordered_traversals(e, MB + '_pos')
+        fr = [t[0] for t in trav]
         uses = [n for n in e.all_nodes() if n.k == 'MemberExpr' and n.decl.get('qp') == MB + '_unknown']
         emit = [u for u in uses if any(a.is_call and ((a.callee or {}).get('n') == 'copy' or a.r.get('op') == '<<') for a in u.ancestors())]
         ok = len(fr) == 1 and emit and all(not any(a == fr[0] for a in u.ancestors()) for u in emit) and \
-            all(e.cfg.vertex_of(u) in e.cfg.reach_from(e.cfg.vertex_of(fr[0].child('range'))) for u in emit if e.cfg.has_vertex(u))
+            all(e.cfg.vertex_of(u) in e.cfg.reach_from(e.cfg.vertex_of(trav[0][1])) for u in emit if e.cfg.has_vertex(u))
         ctx.check(ok, 'R05.1', MB + 'encode%s#unknown-emitted' % ('(char*)' if how == 'copy' else '(ostream)'), e.loc, 'pass-through bytes are emitted after the positioned fields')
     d = prog.fn1(MB + 'decode')
     ctx.saw(d)
